@@ -1531,6 +1531,8 @@ def evalf(r, env, _memo=None):
                     v = args[0] ** args[1]
                 elif n == 'int':
                     v = complex(int(re[0]))
+                elif n == 'nearest':
+                    v = complex(round(re[0]))
                 elif n == 'floordiv':
                     v = complex(re[0] // re[1])
                 elif n == 'mod':
@@ -1580,7 +1582,7 @@ def evalf(r, env, _memo=None):
 def _shared_opaque(a, b):
     """ids of opaque generators (call atoms, items of call results, decoded bytes, ...) that occur in BOTH forms: for a witness they can
     take any value, the same on both sides"""
-    known = {'def', 'sqrt', 'atan', 'atan2', 'asin', 'acos', 'log', 'abs', 'exp', 'pow', 'int', 'floordiv', 'mod', 'lt', 'le', 'gt', 'ge', 'eq', 'ne',
+    known = {'def', 'sqrt', 'atan', 'atan2', 'asin', 'acos', 'log', 'abs', 'exp', 'pow', 'int', 'nearest', 'floordiv', 'mod', 'lt', 'le', 'gt', 'ge', 'eq', 'ne',
              'and', 'or', 'not', 'truthy', 'ite'}
 
     def collect(r):
